@@ -285,6 +285,10 @@ def _build_call(case):
         o = dict(case.get('opts') or {})
         if entry == 'Limit':
             return lambda: Limit(g, path=p, **o)(0.0)
+        if entry == 'Limit-regular-point':      # f is finite at the point: nothing has to be extrapolated, the path is still wrong
+            return lambda: Limit(np.cos, path=p, **o)(0.0)
+        if entry == 'Limit-regular-array':
+            return lambda: Limit(np.exp, path=p, full_output=True, **o)(np.array([0.0, 1.0]))
         if entry == 'Limit-step':
             return lambda: Limit(g, step=0.1, path=p, full_output=True, **o)(0.0)
         if entry == 'Residue':
@@ -617,7 +621,7 @@ def enumerate_cases(ctx):
                     for full in (False, True):
                         cases.append(dict(kind='residue', pole_order=po, order=order, method=method,
                                           step=step, full=full))
-    for entry in ('Limit', 'Limit-step', 'Residue', 'CStepGenerator', 'Limit-generator'):
+    for entry in ('Limit', 'Limit-step', 'Residue', 'CStepGenerator', 'Limit-generator', 'Limit-regular-point', 'Limit-regular-array'):
         for p in BAD_PATHS:
             cases.append(dict(kind='path', entry=entry, path=p))
         # an unknown path stays an error whatever legitimate path options accompany it
@@ -637,7 +641,8 @@ def required_cells():
     req += ['short/gen=%s' % g for g in ('Min', 'Max', 'User')]
     req += ['dirdiff', 'fdw/fd_weights_all', 'fdw/fd_weights', 'fdd/len(fx)!=len(x)', 'fdd/n>=len(x)',
             'fdd/len(fx)!=len(x)+n>=len(x)', 'residue']
-    req += ['path/%s' % e for e in ('Limit', 'Limit-step', 'Residue', 'CStepGenerator', 'Limit-generator')]
+    req += ['path/%s' % e for e in ('Limit', 'Limit-step', 'Residue', 'CStepGenerator', 'Limit-generator', 'Limit-regular-point',
+                                    'Limit-regular-array')]
     return req
 
 
